@@ -2,274 +2,334 @@
   Property C16 — references to embedded sub-documents resolve to where they are stored.
   Theorems about `OdfModel.Pkg.step/run` (model of `addObject`), `save` and `load`; tied to
   odf/opendocument.py by the correspondence run of harness/c16.py (attachment histories and loaded
-  packages through the real library and through drv_pkg).
+  packages through the real library and through drv_pkg).  Code as of fix 0372084: `save` stores every
+  sub-document under its `folder` attribute, `addObject` returns "." + that attribute.
 
   FULL STATEMENT (`RefsResolve`, below): for every attachment history, every reference returned by
   addObject for an object that hangs under the saved document names the folder that holds the object's
   content.xml and styles.xml and that the manifest declares with the object's media type.
-  It is FALSE for the code as it is (`not_refsResolve`): `save` names folders by POSITION in
-  `childobjects`, `addObject` by the parent's `folder` attribute at attach time or by the caller's name.
-  Proved: `ref_names_folder_partial` (default names, parents attached to the root chain first) and the
-  three counter-examples `finding_*`; for `load`: `reload_keeps_refs_partial`, `finding_noncontiguous`, `finding_permuted_manifest_order`.
+  Still FALSE (`not_refsResolve`, finding KF-C16-2): a reference is a string; one handed out while the
+  parent was not yet attached goes stale when the parent is attached (the `folder` attributes follow, the
+  string cannot).  Proved: `ref_names_folder_partial` — with exactly the decidable hypothesis
+  `parentsFirst` (every parent hangs under the saved document when it gets a child) every reference
+  resolves: default names, explicit names (leading "/" or not, any characters), refused duplicates,
+  children that bring objects of their own, any nesting depth.
+  For `load`: see the second half (`reload_keeps_refs`, `load_carries`), all packages, no hypothesis.
 -/
 import OdfModel.Pkg
 import OdfModel.Props.C03
 namespace OdfModel.Props.C16
 open OdfModel OdfModel.Pkg
 
-/-! ### the invariant: the `folder` attribute agrees with the position -/
+/-! ### the tree and its nodes -/
 
-mutual
-/-- `Pos F t`: in the tree `t`, stored at positional folder `F`, every document's `folder` attribute
-    `a` satisfies `a ++ "/" = "/" ++ (its positional folder)` -/
-def Pos (F : Str) : Doc → Prop
-  | ⟨_, _, _, _, _, _, fo, kids⟩ => fo ++ sSlash = sSlash ++ F ∧ PosK F 1 kids
-def PosK (F : Str) (k : Nat) : List Doc → Prop
-  | [] => True
-  | c :: cs => Pos (F ++ objPrefix k) c ∧ PosK F (k+1) cs
-end
-
-theorem posK_snoc (F : Str) (x : Doc) : ∀ (ds : List Doc) (k : Nat),
-    PosK F k (ds ++ [x]) ↔ PosK F k ds ∧ Pos (F ++ objPrefix (k + ds.length)) x := by
-  intro ds
-  induction ds with
-  | nil => intro k; simp [PosK]
-  | cons d ds ih =>
-    intro k
-    simp only [List.cons_append, PosK, ih (k+1), List.length_cons, and_assoc]
-    have : k + 1 + ds.length = k + (ds.length + 1) := by omega
-    rw [this]
-
-theorem objectsK_snoc (F : Str) (x : Doc) : ∀ (ds : List Doc) (k : Nat),
-    objectsK F k (ds ++ [x]) = objectsK F k ds ++ objects (F ++ objPrefix (k + ds.length)) x := by
-  intro ds
-  induction ds with
-  | nil => intro k; simp [objectsK]
-  | cons d ds ih =>
-    intro k
-    simp only [List.cons_append, objectsK, ih (k+1), List.length_cons, List.append_assoc]
-    have : k + 1 + ds.length = k + (ds.length + 1) := by omega
-    rw [this]
-
-theorem objects_head (F : Str) (d : Doc) : objects F d = (F, d) :: objectsK F 1 d.children := by
+theorem objects_head (L : Nat) (F : Str) (d : Doc) : objects L F d = (F, d) :: objectsK L d.children := by
   cases d with
   | mk id mt hs pics th ex fo kids => simp [objects]
 
-/-- `L'` still has, at the same folder, every object (id, media type) that `L` has -/
-def Sub (L L' : List (Str × Doc)) : Prop :=
-  ∀ q ∈ L, ∃ q' ∈ L', q'.1 = q.1 ∧ q'.2.id = q.2.id ∧ q'.2.mimetype = q.2.mimetype
-
-theorem Sub.refl (L : List (Str × Doc)) : Sub L L := fun q hq => ⟨q, hq, rfl, rfl, rfl⟩
-
-/-- `L` holds the object `c` at a folder `G ++ "/"` where the folder attribute given to it is `"/" ++ G` -/
-def New (c : Doc) (f : Str) (L : List (Str × Doc)) : Prop :=
-  ∃ q ∈ L, ∃ G, q.2.id = c.id ∧ q.2.mimetype = c.mimetype ∧ f = sSlash ++ G ∧ q.1 = G ++ sSlash
+theorem objectsK_append (L : Nat) : ∀ (a b : List Doc), objectsK L (a ++ b) = objectsK L a ++ objectsK L b := by
+  intro a
+  induction a with
+  | nil => intro b; simp [objectsK]
+  | cons d ds ih => intro b; simp [objectsK, ih b, List.append_assoc]
 
 mutual
-theorem attach_ok (p : Nat) (c : Doc) (hc : c.children = []) (F : Str) (t t' : Doc) (f : Str)
-    (hpos : Pos F t) (h : attachIn p c none t = some (t', f)) :
-    Pos F t' ∧ t'.id = t.id ∧ t'.mimetype = t.mimetype
-      ∧ Sub (objectsK F 1 t.children) (objectsK F 1 t'.children) ∧ New c f (objectsK F 1 t'.children) := by
+/-- every sub-document is listed with the folder `stor L` computes from its `folder` attribute -/
+theorem objects_fst (L : Nat) (F : Str) (d : Doc) : ∀ q ∈ objects L F d, q = (F, d) ∨ q.1 = stor L q.2 := by
+  cases d with
+  | mk id mt hs pics th ex fo kids =>
+    intro q hq
+    simp only [objects, List.mem_cons] at hq
+    rcases hq with hq | hq
+    · exact Or.inl hq
+    · exact Or.inr (objectsK_fst L kids q hq)
+theorem objectsK_fst (L : Nat) (ds : List Doc) : ∀ q ∈ objectsK L ds, q.1 = stor L q.2 := by
+  cases ds with
+  | nil => intro q hq; simp [objectsK] at hq
+  | cons c cs =>
+    intro q hq
+    simp only [objectsK, List.mem_append] at hq
+    rcases hq with hq | hq
+    · rcases objects_fst L (stor L c) c q hq with h | h
+      · rw [h]
+      · exact h
+    · exact objectsK_fst L cs q hq
+end
+
+/-- a `folder` attribute of an attached document: begins with "/" -/
+def Slashy (f : Str) : Prop := ∃ G, f = 47 :: G
+
+/-- `L'` still has every object (id, media type, folder attribute) that `L` has -/
+def Sub (L L' : List (Str × Doc)) : Prop :=
+  ∀ q ∈ L, ∃ q' ∈ L', q'.2.id = q.2.id ∧ q'.2.mimetype = q.2.mimetype ∧ q'.2.folder = q.2.folder
+
+/-- `L` holds the object `c` with the folder attribute `f` -/
+def New (c : Doc) (f : Str) (L : List (Str × Doc)) : Prop :=
+  ∃ q ∈ L, q.2.id = c.id ∧ q.2.mimetype = c.mimetype ∧ q.2.folder = f
+
+theorem setFolder_fields (f : Str) (c : Doc) :
+    (setFolder f c).id = c.id ∧ (setFolder f c).mimetype = c.mimetype ∧ (setFolder f c).folder = f := by
+  cases c with
+  | mk id mt hs pics th ex fo kids => simp [setFolder]
+
+mutual
+/-- after `_setFolder(f)` every document of the moved subtree has a folder that begins with `f` -/
+theorem setFolder_prefix (L : Nat) (F f : Str) (c : Doc) : ∀ q ∈ objects L F (setFolder f c), f <+: q.2.folder := by
+  cases c with
+  | mk id mt hs pics th ex fo kids =>
+    intro q hq
+    simp only [setFolder, objects, List.mem_cons] at hq
+    rcases hq with hq | hq
+    · subst hq; exact List.prefix_refl _
+    · exact setFolderKids_prefix L f fo.length kids q hq
+theorem setFolderKids_prefix (L : Nat) (f : Str) (n : Nat) (ds : List Doc) :
+    ∀ q ∈ objectsK L (setFolderKids f n ds), f <+: q.2.folder := by
+  cases ds with
+  | nil => intro q hq; simp [setFolderKids, objectsK] at hq
+  | cons c cs =>
+    intro q hq
+    simp only [setFolderKids, objectsK, List.mem_append] at hq
+    rcases hq with hq | hq
+    · have := setFolder_prefix L _ (f ++ c.folder.drop n) c q hq
+      exact List.IsPrefix.trans (List.prefix_append f _) this
+    · exact setFolderKids_prefix L f n cs q hq
+end
+
+theorem slashy_of_prefix {f g : Str} (hf : Slashy f) (h : f <+: g) : Slashy g := by
+  obtain ⟨G, rfl⟩ := hf
+  obtain ⟨t, rfl⟩ := h
+  exact ⟨G ++ t, rfl⟩
+
+/-! ### addObject keeps what is attached and adds the new object where its reference says -/
+
+mutual
+theorem attach_ok (p : Nat) (c : Doc) (name : Option Str) (t t' : Doc) (f : Str)
+    (h : attachIn p c name t = .ok t' f) (hroot : t.folder = [] ∨ Slashy t.folder)
+    (hkids : ∀ q ∈ objectsK 0 t.children, Slashy q.2.folder) :
+    t'.id = t.id ∧ t'.mimetype = t.mimetype ∧ t'.folder = t.folder
+      ∧ Sub (objectsK 0 t.children) (objectsK 0 t'.children) ∧ New c f (objectsK 0 t'.children)
+      ∧ Slashy f ∧ ∀ q ∈ objectsK 0 t'.children, Slashy q.2.folder := by
   cases t with
   | mk id mt hs pics th ex fo kids =>
     simp only [attachIn] at h
-    simp only [Pos] at hpos
     by_cases hid : id = p
     · subst hid
-      simp only [if_true, Option.some.injEq, Prod.mk.injEq] at h
-      obtain ⟨rfl, rfl⟩ := h
-      have hfo : (fo ++ sSlashObjectSp ++ dec (kids.length + 1)) ++ sSlash
-          = sSlash ++ (F ++ objPrefix (1 + kids.length)) := by
-        have e1 : sSlashObjectSp = sSlash ++ sObjectSp := by decide
-        have e2 : 1 + kids.length = kids.length + 1 := by omega
-        rw [e1, e2]
-        simp only [objPrefix, ← List.append_assoc, hpos.1]
-      refine ⟨?_, rfl, rfl, ?_, ?_⟩
-      · simp only [Pos]
-        refine ⟨hpos.1, (posK_snoc F _ kids 1).mpr ⟨hpos.2, ?_⟩⟩
-        cases c with
-        | mk cid cmt chs cpics cth cex cfo ckids =>
-          simp only at hc
-          subst hc
-          simp only [Doc.setFolder, Pos, PosK, and_true]
-          exact hfo
-      · intro q hq
-        refine ⟨q, ?_, rfl, rfl, rfl⟩
-        simp only [objectsK_snoc, List.mem_append]
-        exact Or.inl hq
-      · refine ⟨(F ++ objPrefix (1 + kids.length), c.setFolder (fo ++ sSlashObjectSp ++ dec (kids.length + 1))), ?_, F ++ sObjectSp ++ dec (kids.length + 1), rfl, rfl, ?_, ?_⟩
-        · simp only [objectsK_snoc, List.mem_append]
-          right
-          rw [objects_head]; exact List.mem_cons_self
-        · have e1 : sSlashObjectSp = sSlash ++ sObjectSp := by decide
-          rw [e1]
-          simp only [← List.append_assoc, hpos.1]
-        · have e2 : 1 + kids.length = kids.length + 1 := by omega
-          simp only [objPrefix, e2, List.append_assoc]
-    · simp only [hid, if_false] at h
-      cases hk : attachInK p c none kids with
-      | none => simp [hk] at h
-      | some r =>
-        obtain ⟨kids', f'⟩ := r
-        simp only [hk, Option.some.injEq, Prod.mk.injEq] at h
+      simp only [if_true] at h
+      cases hn : objectName fo kids name with
+      | none => simp [hn] at h
+      | some n =>
+        simp only [hn, Attach.ok.injEq] at h
         obtain ⟨rfl, rfl⟩ := h
-        have := attach_okK p c hc F 1 kids kids' f' hpos.2 hk
-        exact ⟨by simp only [Pos]; exact ⟨hpos.1, this.1⟩, rfl, rfl, this.2.1, this.2.2⟩
-theorem attach_okK (p : Nat) (c : Doc) (hc : c.children = []) (F : Str) (k : Nat) (ds ds' : List Doc) (f : Str)
-    (hpos : PosK F k ds) (h : attachInK p c none ds = some (ds', f)) :
-    PosK F k ds' ∧ Sub (objectsK F k ds) (objectsK F k ds') ∧ New c f (objectsK F k ds') := by
+        have hf : Slashy (fo ++ sSlash ++ n) := by
+          rcases hroot with h0 | ⟨G, hG⟩
+          · simp only at h0; subst h0; exact ⟨n, rfl⟩
+          · simp only at hG; subst hG; exact ⟨G ++ sSlash ++ n, by simp⟩
+        refine ⟨rfl, rfl, rfl, ?_, ?_, hf, ?_⟩
+        · intro q hq
+          refine ⟨q, ?_, rfl, rfl, rfl⟩
+          simp only [objectsK_append, List.mem_append]
+          exact Or.inl hq
+        · refine ⟨(stor 0 (setFolder (fo ++ sSlash ++ n) c), setFolder (fo ++ sSlash ++ n) c), ?_, ?_⟩
+          · simp only [objectsK_append, List.mem_append]
+            right
+            simp only [objectsK, List.append_nil]
+            rw [objects_head]; exact List.mem_cons_self
+          · exact setFolder_fields _ c
+        · intro q hq
+          simp only [objectsK_append, List.mem_append] at hq
+          rcases hq with hq | hq
+          · exact hkids q hq
+          · simp only [objectsK, List.append_nil] at hq
+            exact slashy_of_prefix hf (setFolder_prefix 0 _ _ c q hq)
+    · simp only [hid, if_false] at h
+      cases hk : attachInK p c name kids with
+      | notFound => simp [hk] at h
+      | valueError => simp [hk] at h
+      | ok kids' f' =>
+        simp only [hk, Attach.ok.injEq] at h
+        obtain ⟨rfl, rfl⟩ := h
+        have := attach_okK p c name kids kids' f' hk hkids
+        exact ⟨rfl, rfl, rfl, this⟩
+theorem attach_okK (p : Nat) (c : Doc) (name : Option Str) (ds ds' : List Doc) (f : Str)
+    (h : attachInK p c name ds = .ok ds' f) (hkids : ∀ q ∈ objectsK 0 ds, Slashy q.2.folder) :
+    Sub (objectsK 0 ds) (objectsK 0 ds') ∧ New c f (objectsK 0 ds') ∧ Slashy f
+      ∧ ∀ q ∈ objectsK 0 ds', Slashy q.2.folder := by
   cases ds with
   | nil => simp [attachInK] at h
   | cons d rest =>
     simp only [attachInK] at h
-    simp only [PosK] at hpos
-    cases h1 : attachIn p c none d with
-    | some r =>
-      obtain ⟨d', f'⟩ := r
-      simp only [h1, Option.some.injEq, Prod.mk.injEq] at h
+    have hd : Slashy d.folder := hkids (stor 0 d, d) (by simp only [objectsK, List.mem_append]; left; rw [objects_head]; exact List.mem_cons_self)
+    have hdk : ∀ q ∈ objectsK 0 d.children, Slashy q.2.folder := by
+      intro q hq
+      apply hkids q
+      simp only [objectsK, List.mem_append]; left; rw [objects_head]; exact List.mem_cons_of_mem _ hq
+    have hrest : ∀ q ∈ objectsK 0 rest, Slashy q.2.folder := by
+      intro q hq
+      apply hkids q
+      simp only [objectsK, List.mem_append]; exact Or.inr hq
+    cases h1 : attachIn p c name d with
+    | ok d' f' =>
+      simp only [h1, Attach.ok.injEq] at h
       obtain ⟨rfl, rfl⟩ := h
-      have := attach_ok p c hc (F ++ objPrefix k) d d' f' hpos.1 h1
-      obtain ⟨hp, hid, hmt, hsub, hnew⟩ := this
-      refine ⟨by simp only [PosK]; exact ⟨hp, hpos.2⟩, ?_, ?_⟩
+      obtain ⟨hid, hmt, hfo, hsub, hnew, hf, hall⟩ := attach_ok p c name d d' f' h1 (Or.inr hd) hdk
+      refine ⟨?_, ?_, hf, ?_⟩
       · intro q hq
         simp only [objectsK, List.mem_append] at hq ⊢
         rcases hq with hq | hq
         · rw [objects_head] at hq
           rcases List.mem_cons.mp hq with hq | hq
           · subst hq
-            exact ⟨(F ++ objPrefix k, d'), Or.inl (by rw [objects_head]; exact List.mem_cons_self), rfl, hid, hmt⟩
+            exact ⟨(stor 0 d', d'), Or.inl (by rw [objects_head]; exact List.mem_cons_self), hid, hmt, hfo⟩
           · obtain ⟨q', hq', e⟩ := hsub q hq
             exact ⟨q', Or.inl (by rw [objects_head]; exact List.mem_cons_of_mem _ hq'), e⟩
         · exact ⟨q, Or.inr hq, rfl, rfl, rfl⟩
-      · obtain ⟨q, hq, G, e⟩ := hnew
-        refine ⟨q, ?_, G, e⟩
+      · obtain ⟨q, hq, e⟩ := hnew
+        refine ⟨q, ?_, e⟩
         simp only [objectsK, List.mem_append]
         exact Or.inl (by rw [objects_head]; exact List.mem_cons_of_mem _ hq)
-    | none =>
+      · intro q hq
+        simp only [objectsK, List.mem_append] at hq
+        rcases hq with hq | hq
+        · rw [objects_head] at hq
+          rcases List.mem_cons.mp hq with hq | hq
+          · subst hq; simp only; rw [hfo]; exact hd
+          · exact hall q hq
+        · exact hrest q hq
+    | valueError => simp [h1] at h
+    | notFound =>
       simp only [h1] at h
-      cases h2 : attachInK p c none rest with
-      | none => simp [h2] at h
-      | some r =>
-        obtain ⟨rest', f'⟩ := r
-        simp only [h2, Option.some.injEq, Prod.mk.injEq] at h
+      cases h2 : attachInK p c name rest with
+      | notFound => simp [h2] at h
+      | valueError => simp [h2] at h
+      | ok rest' f' =>
+        simp only [h2, Attach.ok.injEq] at h
         obtain ⟨rfl, rfl⟩ := h
-        have := attach_okK p c hc F (k+1) rest rest' f' hpos.2 h2
-        obtain ⟨hp, hsub, hnew⟩ := this
-        refine ⟨by simp only [PosK]; exact ⟨hpos.1, hp⟩, ?_, ?_⟩
+        obtain ⟨hsub, hnew, hf, hall⟩ := attach_okK p c name rest rest' f' h2 hrest
+        refine ⟨?_, ?_, hf, ?_⟩
         · intro q hq
           simp only [objectsK, List.mem_append] at hq ⊢
           rcases hq with hq | hq
           · exact ⟨q, Or.inl hq, rfl, rfl, rfl⟩
           · obtain ⟨q', hq', e⟩ := hsub q hq
             exact ⟨q', Or.inr hq', e⟩
-        · obtain ⟨q, hq, G, e⟩ := hnew
-          refine ⟨q, ?_, G, e⟩
+        · obtain ⟨q, hq, e⟩ := hnew
+          refine ⟨q, ?_, e⟩
           simp only [objectsK, List.mem_append]
           exact Or.inr hq
+        · intro q hq
+          simp only [objectsK, List.mem_append] at hq
+          rcases hq with hq | hq
+          · apply hkids q; simp only [objectsK, List.mem_append]; exact Or.inl hq
+          · exact hall q hq
 end
 
 mutual
 theorem hasId_attach (p : Nat) (c : Doc) (n : Option Str) (t : Doc) (h : hasId p t = true) :
-    (attachIn p c n t).isSome = true := by
+    attachIn p c n t ≠ .notFound := by
   cases t with
   | mk id mt hs pics th ex fo kids =>
     simp only [hasId, Bool.or_eq_true, beq_iff_eq] at h
     simp only [attachIn]
     by_cases hid : id = p
-    · simp [hid]
+    · simp only [hid, if_true]
+      cases objectName fo kids n <;> simp
     · have hk := hasId_attachK p c n kids (by rcases h with h | h; exact absurd h hid; exact h)
       simp only [hid, if_false]
       cases h2 : attachInK p c n kids with
-      | none => simp [h2] at hk
-      | some r => simp
+      | notFound => exact absurd h2 hk
+      | valueError => simp
+      | ok a b => simp
 theorem hasId_attachK (p : Nat) (c : Doc) (n : Option Str) (ds : List Doc) (h : hasIdK p ds = true) :
-    (attachInK p c n ds).isSome = true := by
+    attachInK p c n ds ≠ .notFound := by
   cases ds with
   | nil => simp [hasIdK] at h
   | cons d rest =>
     simp only [hasIdK, Bool.or_eq_true] at h
     simp only [attachInK]
     cases h1 : attachIn p c n d with
-    | some r => simp
-    | none =>
+    | ok a b => simp
+    | valueError => simp
+    | notFound =>
       rcases h with h | h
-      · have := hasId_attach p c n d h; simp [h1] at this
+      · exact absurd h1 (hasId_attach p c n d h)
       · have := hasId_attachK p c n rest h
         cases h2 : attachInK p c n rest with
-        | none => simp [h2] at this
-        | some r => simp
+        | notFound => exact absurd h2 this
+        | valueError => simp
+        | ok a b => simp
 end
 
-/-! ### the theorem for well-ordered histories -/
+/-! ### the theorem for histories that attach parents first -/
 
-/-- every reference returned so far names the positional folder of its object under the root -/
-def RefsOK (h : Hist) : Prop :=
-  ∀ x ∈ h.refs, ∃ q ∈ objectsK [] 1 h.root.children, ∃ G,
-    q.2.id = x.1 ∧ q.2.mimetype = x.2.1 ∧ x.2.2 = sDotSlashStr ++ G ∧ q.1 = G ++ sSlash
-where sDotSlashStr : Str := [46, 47]
+/-- the saved document is a top-level document, everything below it has a folder beginning with "/", and every
+    reference returned so far is "." + the `folder` attribute of its object, which hangs under the root -/
+def Inv (h : Hist) : Prop :=
+  h.root.folder = [] ∧ (∀ q ∈ objectsK 0 h.root.children, Slashy q.2.folder) ∧
+  ∀ x ∈ h.refs, ∃ q ∈ objectsK 0 h.root.children, q.2.id = x.1 ∧ q.2.mimetype = x.2.1 ∧ x.2.2 = 46 :: q.2.folder
 
-def Inv (h : Hist) : Prop := Pos [] h.root ∧ RefsOK h
-
-theorem step_inv (h h' : Hist) (op : Op) (hinv : Inv h) (hord : orderedOp h op = true)
-    (hstep : step h op = some h') : Inv h' := by
-  simp only [orderedOp, Bool.and_eq_true] at hord
-  obtain ⟨⟨hname, hpar⟩, hchild⟩ := hord
-  have hn : op.name = none := by cases hh : op.name <;> simp [hh] at hname ⊢
+theorem step_inv (h h' : Hist) (op : Op) (hinv : Inv h) (hpar : hasId op.parent h.root = true)
+    (hstep : step h op = .ok h') : Inv h' := by
   simp only [step] at hstep
+  split at hstep
+  · cases hstep
   cases hf : h.pool.find? (fun d => d.id == op.child) with
   | none => simp [hf] at hstep
   | some c =>
-    simp only [hf] at hstep hchild
-    have hc : c.children = [] := by simpa using hchild
-    have hsome := hasId_attach op.parent c op.name h.root hpar
+    simp only [hf] at hstep
+    have hnf := hasId_attach op.parent c op.name h.root hpar
     cases ha : attachIn op.parent c op.name h.root with
-    | none => simp [ha] at hsome
-    | some r =>
-      obtain ⟨root', f⟩ := r
-      simp only [ha, Option.some.injEq] at hstep
+    | notFound => exact absurd ha hnf
+    | valueError => simp [ha] at hstep
+    | ok root' f =>
+      simp only [ha, StepRes.ok.injEq] at hstep
       subst hstep
-      rw [hn] at ha
-      obtain ⟨hp, _, _, hsub, hnew⟩ := attach_ok op.parent c hc [] h.root root' f hinv.1 ha
-      refine ⟨hp, ?_⟩
+      obtain ⟨_, _, hfo, hsub, hnew, _, hall⟩ := attach_ok op.parent c op.name h.root root' f ha (Or.inl hinv.1) hinv.2.1
+      refine ⟨by rw [hfo]; exact hinv.1, hall, ?_⟩
       intro x hx
       simp only [List.mem_append, List.mem_singleton] at hx
       rcases hx with hx | hx
-      · obtain ⟨q, hq, G, e1, e2, e3, e4⟩ := hinv.2 x hx
+      · obtain ⟨q, hq, e1, e2, e3⟩ := hinv.2.2 x hx
         obtain ⟨q', hq', f1, f2, f3⟩ := hsub q hq
-        exact ⟨q', hq', G, by rw [f2, e1], by rw [f3, e2], e3, by rw [f1, e4]⟩
+        exact ⟨q', hq', by rw [f1, e1], by rw [f2, e2], by rw [f3, e3]⟩
       · subst hx
-        obtain ⟨q, hq, G, e1, e2, e3, e4⟩ := hnew
-        refine ⟨q, hq, G, e1, e2, ?_, e4⟩
-        simp only [e3, RefsOK.sDotSlashStr, sSlash]
-        rfl
+        obtain ⟨q, hq, e1, e2, e3⟩ := hnew
+        exact ⟨q, hq, e1, e2, by rw [e3]⟩
 
-theorem run_inv : ∀ (ops : List Op) (h h' : Hist), Inv h → ordered h ops = true → run h ops = some h' → Inv h' := by
+theorem run_inv : ∀ (ops : List Op) (h h' : Hist), Inv h → parentsFirst h ops = true → run h ops = some h' → Inv h' := by
   intro ops
   induction ops with
   | nil => intro h h' hinv _ hr; simp only [run, Option.some.injEq] at hr; subst hr; exact hinv
   | cons op ops ih =>
     intro h h' hinv hord hr
-    simp only [ordered, Bool.and_eq_true] at hord
+    simp only [parentsFirst, Bool.and_eq_true] at hord
     simp only [run] at hr
     cases hs : step h op with
-    | none => simp [hs] at hr
-    | some h1 =>
+    | unsupported => simp [hs] at hr
+    | valueError =>
+      simp only [hs] at hr hord
+      exact ih h h' hinv hord.2 hr
+    | ok h1 =>
       simp only [hs] at hr hord
       exact ih h1 h' (step_inv h h1 op hinv hord.1 hs) hord.2 hr
 
-theorem resolves_of_refsOK (h : Hist) (hr : RefsOK h) :
+theorem resolves_of_inv (h : Hist) (hinv : Inv h) :
     ∀ x ∈ h.refs, refResolves (save h.root) x.2.2 x.1 x.2.1 = true := by
   intro x hx
-  obtain ⟨q, hq, G, e1, e2, e3, e4⟩ := hr x hx
-  have hobj : q ∈ objects [] h.root := by rw [objects_head]; exact List.mem_cons_of_mem _ hq
+  obtain ⟨q, hq, e1, e2, e3⟩ := hinv.2.2 x hx
+  obtain ⟨G, hG⟩ := hinv.2.1 q hq
+  have hL : h.root.folder.length = 0 := by rw [hinv.1]; rfl
+  have hq' : q ∈ objectsK h.root.folder.length h.root.children := by rw [hL]; exact hq
+  have hobj : q ∈ objects h.root.folder.length [] h.root := by rw [objects_head]; exact List.mem_cons_of_mem _ hq'
   have hparts := C03.parts_present h.root q hobj
-  have hmt := (C03.root_and_object_mediatypes h.root).2 q hq
+  have hmt := (C03.root_and_object_mediatypes h.root).2 q hq'
   have hz1 := hparts.1 ⟨q.1 ++ sStyles, .deflated, [], .part .styles q.2.id⟩ (by simp [C03.ownXmlZ])
   have hz2 := hparts.1 ⟨q.1 ++ sContent, .deflated, [], .part .content q.2.id⟩ (by simp [C03.ownXmlZ])
-  simp only [refResolves, e3, RefsOK.sDotSlashStr, Bool.and_eq_true, List.any_eq_true]
-  have hd : List.drop 2 ([46, 47] ++ G) = G := by simp
-  have ht : List.take 2 ([46, 47] ++ G) = [46, 47] := by simp
-  rw [hd, ht, ← e4]
+  have hst : q.1 = G ++ sSlash := by
+    rw [objectsK_fst 0 _ q hq]; simp [stor, hG]
+  simp only [refResolves, e3, hG, Bool.and_eq_true, List.any_eq_true]
+  have hd : List.drop 2 (46 :: 47 :: G) = G := rfl
+  have ht : List.take 2 (46 :: 47 :: G) = [46, 47] := rfl
+  rw [hd, ht, ← hst]
   refine ⟨⟨⟨by simp, ⟨_, hz2, by simp [e1]⟩⟩, ⟨_, hz1, by simp [e1]⟩⟩, ⟨_, hmt, by simp [e2]⟩⟩
 
 /-- the full-strength statement: for EVERY attachment history, every returned reference resolves -/
@@ -277,25 +337,32 @@ def RefsResolve : Prop :=
   ∀ (h0 : Hist) (ops : List Op) (h : Hist), Inv h0 → run h0 ops = some h →
     ∀ x ∈ h.refs, refResolves (save h.root) x.2.2 x.1 x.2.1 = true
 
-/-- **C16 (`ref_names_folder`, proved part)**: start from a document whose references so far are good
-    (e.g. a fresh document: `inv_fresh`).  For every attachment history in which all objects get their
-    default name and every parent is attached to the root chain before its children are attached
-    (`ordered h0 ops`, decidable), every reference returned by addObject — for objects at any nesting
-    depth — is "./" ++ G where the folder "G/" holds, in the saved package, content.xml and styles.xml of
-    exactly that object, and the manifest declares "G/" with that object's media type. -/
+/-- **C16 (`ref_names_folder`, proved part)**: start from a document whose references so far are good (e.g. a
+    fresh document: `inv_fresh`).  For every attachment history in which every parent hangs under the saved
+    document at the time it gets a child (`parentsFirst h0 ops`, decidable) — default names and explicit names
+    alike, refused duplicates skipped, children that already carry objects of their own, any nesting depth —
+    every reference returned by addObject is "./" ++ G where the folder "G/" holds, in the saved package,
+    content.xml and styles.xml of exactly that object, and the manifest declares "G/" with that object's
+    media type. -/
 theorem ref_names_folder_partial (h0 : Hist) (ops : List Op) (h : Hist) (hinit : Inv h0)
-    (hord : ordered h0 ops = true) (hrun : run h0 ops = some h) :
+    (hord : parentsFirst h0 ops = true) (hrun : run h0 ops = some h) :
     ∀ x ∈ h.refs, refResolves (save h.root) x.2.2 x.1 x.2.1 = true :=
-  resolves_of_refsOK h (run_inv ops h0 h hinit hord hrun).2
+  resolves_of_inv h (run_inv ops h0 h hinit hord hrun)
 
 /-- a document that was just created (no objects, folder "") with any pool of unattached documents
     satisfies the invariant -/
 theorem inv_fresh (id : Nat) (mt : Str) (hs : Bool) (pics : List Pic) (th : Option Thumb) (ex : List Extra)
     (pool : List Doc) : Inv ⟨⟨id, mt, hs, pics, th, ex, [], []⟩, pool, []⟩ := by
-  refine ⟨by simp [Pos, PosK], ?_⟩
-  intro x hx; simp at hx
+  refine ⟨rfl, ?_, ?_⟩
+  · intro q hq; simp [objectsK] at hq
+  · intro x hx; simp at hx
 
-/-! ### counter-examples (each replayed on the real library by harness/c16.py) -/
+/-- a refused `addObject` (ValueError) changes nothing: the history goes on from the same state -/
+theorem valueError_atomic (h : Hist) (op : Op) (ops : List Op) (hs : step h op = .valueError) :
+    run h (op :: ops) = run h ops := by
+  simp [run, hs]
+
+/-! ### samples and the remaining counter-example (replayed on the real library by harness/c16.py) -/
 
 def leaf (id : Nat) (mt : Str) : Doc := ⟨id, mt, false, [], none, [], [], []⟩
 /-- `application/x-a`, `application/x-b` stand-ins: only their being different matters -/
@@ -307,36 +374,47 @@ def allResolve (h : Hist) : Bool := h.refs.all (fun x => refResolves (save h.roo
 
 def hasMember (o : Out) (n : Str) : Bool := o.zip.any (fun e => e.name == n)
 
-/-- the hypotheses of the partial theorem are satisfiable: root ← 1, root ← 2, 1 ← 3 -/
-theorem ordered_sample :
-    ordered ⟨leaf 0 mtA, [leaf 1 mtB, leaf 2 mtA, leaf 3 mtB], []⟩ [⟨0, 1, none⟩, ⟨0, 2, none⟩, ⟨1, 3, none⟩] = true
-    ∧ (run ⟨leaf 0 mtA, [leaf 1 mtB, leaf 2 mtA, leaf 3 mtB], []⟩ [⟨0, 1, none⟩, ⟨0, 2, none⟩, ⟨1, 3, none⟩]).map allResolve
-        = some true := by
+/-- "MyObj", "/MyObj", "Object 2" -/
+def nMyObj : Str := [77, 121, 79, 98, 106]
+
+/-- the hypothesis is satisfiable, with explicit names: root ← 1 "MyObj"; root ← 2 "/MyObj" is refused (the
+    leading "/" is ignored, the name is taken) and attaches nothing; root ← 3 "Object 2"; root ← 4 gets the
+    default "Object 3"; 1 ← 2 default "Object 1" below "MyObj" -/
+theorem explicit_names_sample :
+    let h0 : Hist := ⟨leaf 0 mtA, [leaf 1 mtB, leaf 2 mtA, leaf 3 mtB, leaf 4 mtA], []⟩
+    let ops : List Op := [⟨0, 1, some nMyObj⟩, ⟨0, 2, some (47 :: nMyObj)⟩, ⟨0, 3, some (sObjectSp ++ [50])⟩, ⟨0, 4, none⟩, ⟨1, 2, none⟩]
+    parentsFirst h0 ops = true ∧
+    (run h0 ops).map (fun h => (h.refs.map (fun x => (x.1, x.2.2)), allResolve h))
+      = some ([(1, [46, 47] ++ nMyObj), (3, [46, 47] ++ sObjectSp ++ [50]), (4, [46, 47] ++ sObjectSp ++ [51]),
+               (2, [46, 47] ++ nMyObj ++ [47] ++ sObjectSp ++ [49])], true) := by
   decide
 
-/-- **finding KF-C16-1** (`sig=explicit-objectname`): `d.addObject(o1); d.addObject(o2, "MyObj")` returns
-    ".MyObj" for `o2`, but save stores it as "Object 2/". -/
-theorem finding_explicit_objectname :
-    (run ⟨leaf 0 mtA, [leaf 1 mtB, leaf 2 mtB], []⟩ [⟨0, 1, none⟩, ⟨0, 2, some [77, 121, 79, 98, 106]⟩]).map
-      (fun h => (h.refs.map (·.2.2), hasMember (save h.root) (objPrefix 2 ++ sContent), allResolve h))
-    = some ([[46, 47, 79, 98, 106, 101, 99, 116, 32, 49], [46, 77, 121, 79, 98, 106]],
-            true, false) := by
+/-- (was finding KF-C16-9, repaired in d51bb64) a document that is already attached, or the parent itself, is
+    refused: nothing changes, the one reference handed out resolves -/
+theorem attached_twice_refused :
+    let h0 : Hist := ⟨leaf 0 mtA, [leaf 1 mtB, leaf 2 mtA], []⟩
+    let ops : List Op := [⟨0, 1, none⟩, ⟨0, 1, none⟩, ⟨2, 1, none⟩, ⟨2, 2, none⟩]
+    (run h0 ops).map (fun h => (h.refs.map (·.2.2), h.root.children.length, h.pool.map (·.children.length), allResolve h))
+      = some ([[46, 47, 79, 98, 106, 101, 99, 116, 32, 49]], 1, [0], true) := by
   decide
 
 /-- **finding KF-C16-2** (`sig=child-attached-before-parent`): `o1.addObject(o2)` while `o1` is not yet
     attached returns "./Object 1" (o1.folder is still ""), then `d.addObject(o1)` returns "./Object 1" as
-    well; save stores o2 in "Object 1/Object 1/". -/
+    well and moves o2 to "/Object 1/Object 1": save stores o2 in "Object 1/Object 1/", the string handed out
+    first is stale. -/
 theorem finding_child_before_parent :
-    (run ⟨leaf 0 mtA, [leaf 1 mtB, leaf 2 mtA], []⟩ [⟨1, 2, none⟩, ⟨0, 1, none⟩]).map
-      (fun h => (h.refs.map (·.2.2), ordered ⟨leaf 0 mtA, [leaf 1 mtB, leaf 2 mtA], []⟩ [⟨1, 2, none⟩, ⟨0, 1, none⟩],
-                 allResolve h))
-    = some ([[46, 47, 79, 98, 106, 101, 99, 116, 32, 49], [46, 47, 79, 98, 106, 101, 99, 116, 32, 49]], false, false) := by
+    let h0 : Hist := ⟨leaf 0 mtA, [leaf 1 mtB, leaf 2 mtA], []⟩
+    let ops : List Op := [⟨1, 2, none⟩, ⟨0, 1, none⟩]
+    (run h0 ops).map (fun h => (h.refs.map (·.2.2), parentsFirst h0 ops, allResolve h,
+        hasMember (save h.root) (objPrefix 1 ++ objPrefix 1 ++ sContent)))
+    = some ([[46, 47, 79, 98, 106, 101, 99, 116, 32, 49], [46, 47, 79, 98, 106, 101, 99, 116, 32, 49]], false, false, true) := by
   decide
 
 theorem not_refsResolve : ¬ RefsResolve := by
   intro h
-  have h1 := finding_explicit_objectname
-  cases hr : run ⟨leaf 0 mtA, [leaf 1 mtB, leaf 2 mtB], []⟩ [⟨0, 1, none⟩, ⟨0, 2, some [77, 121, 79, 98, 106]⟩] with
+  have h1 := finding_child_before_parent
+  simp only at h1
+  cases hr : run ⟨leaf 0 mtA, [leaf 1 mtB, leaf 2 mtA], []⟩ [⟨1, 2, none⟩, ⟨0, 1, none⟩] with
   | none => rw [hr] at h1; cases h1
   | some hh =>
     rw [hr] at h1
@@ -345,109 +423,428 @@ theorem not_refsResolve : ¬ RefsResolve := by
       simp only [allResolve, List.all_eq_true]; exact hall
     simp only [Option.map_some, Option.some.injEq, Prod.mk.injEq] at h1
     rw [this] at h1
-    exact absurd h1.2.2 (by decide)
+    exact absurd h1.2.2.1 (by decide)
 
-/-! ### load: object folders are renumbered by manifest order -/
+/-! ### load + save: every sub-document, at any depth, with any folder name and in any manifest order, comes back
+    under the folder it was loaded from, and so does everything else below its folder -/
 
-/-- for a package, what its content says about its objects: "./Object N" for every top-level object
-    folder "Object N/" (`load` keeps exactly that in the `folder` attribute: "/Object N") -/
-def reloadRefs (d : Doc) : List (Nat × Str × Str) :=
-  d.children.map (fun c => (c.id, c.mimetype, 46 :: c.folder))
+open OdfModel.Props.C03 in
+theorem chainPairs_parent (keys : List Str) : ∀ (f : Nat) (op rest : Str),
+    ∀ x ∈ chainPairs keys f op rest, x.1 = op ∨ ∃ y ∈ chainPairs keys f op rest, y.2 = x.1 := by
+  intro f
+  induction f with
+  | zero => intro op rest x hx; simp [chainPairs] at hx
+  | succ f ih =>
+    intro op rest x hx
+    simp only [chainPairs] at hx ⊢
+    cases ho : objComp rest with
+    | none => simp [ho] at hx
+    | some c =>
+      simp only [ho] at hx ⊢
+      by_cases hk : keys.contains (op ++ c) = true
+      · simp only [hk, if_true, List.mem_cons] at hx ⊢
+        rcases hx with rfl | hx
+        · exact Or.inl rfl
+        · right
+          rcases ih _ _ x hx with h | ⟨y, hy, hyx⟩
+          · exact ⟨(op, op ++ c), Or.inl rfl, h.symm⟩
+          · exact ⟨y, Or.inr hy, hyx⟩
+      · simp only [hk] at hx
+        simp at hx
 
-/-- after load + save, every reference "./Object N" still names the folder of the object that was
-    loaded from "Object N/" -/
-def reloadOK (p : Package) : Bool :=
-  match load p with
-  | none => true
-  | some d => (reloadRefs d).all (fun x => refResolves (save d) x.2.2 x.1 x.2.1)
+open OdfModel.Props.C03 in
+/-- the parent of a sub-document folder is the top folder or itself a sub-document folder -/
+theorem allPairs_parent (keys : List Str) (x : Str × Str) (hx : x ∈ allPairs keys) :
+    x.1 = [] ∨ ∃ P', (P', x.1) ∈ allPairs keys := by
+  simp only [allPairs, foldl_addPair_mem, List.not_mem_nil, false_or, List.mem_flatMap] at hx ⊢
+  obtain ⟨k, hk, hxk⟩ := hx
+  rcases chainPairs_parent keys k.length [] k x hxk with h | ⟨y, hy, hyx⟩
+  · exact Or.inl h
+  · right
+    refine ⟨y.1, k, hk, ?_⟩
+    have : (y.1, x.1) = y := by rw [← hyx]
+    rw [this]; exact hy
 
-/-- the full-strength statement for loaded packages -/
-def ReloadKeepsRefs : Prop := ∀ p, reloadOK p = true
+/-- nesting depth of a folder: its number of "/" -/
+def depth (Q : Str) : Nat := Q.count 47
 
-/-- "Object 7/" is the only object folder of the package -/
-def pkgObject7 : Package :=
-  ⟨some sOdt,
-   [(sSlash, sOdt), (sContent, sTextXml), (sStyles, sTextXml),
-    (sObjectSp ++ [55, 47], mtB), (sObjectSp ++ [55, 47] ++ sContent, sTextXml), (sObjectSp ++ [55, 47] ++ sStyles, sTextXml)],
-   [(sContent, [60]), (sStyles, [60]), (sObjectSp ++ [55, 47] ++ sContent, [60]), (sObjectSp ++ [55, 47] ++ sStyles, [60])], []⟩
+open OdfModel.Props.C03 in
+theorem depth_comp (P c : Str) (hc : IsComp c) : depth (P ++ c) = depth P + 1 := by
+  obtain ⟨ds, rfl, _, hd⟩ := hc
+  have h1 : List.count 47 ds = 0 := by
+    apply List.count_eq_zero.mpr
+    intro hin
+    have := hd 47 hin; revert this; decide
+  have h2 : List.count 47 sObjectSp = 0 := by decide
+  have h3 : List.count 47 sSlash = 1 := by decide
+  simp only [depth, List.count_append, h1, h2, h3]
 
-/-- **finding KF-C16-3** (`sig=noncontiguous-object-numbering`): the object loaded from "Object 7/" keeps
-    folder "/Object 7" (the content says "./Object 7") but is re-stored as "Object 1/". -/
-theorem finding_noncontiguous :
-    (load pkgObject7).map (fun d => (d.children.map (·.folder), (save d).man.any (fun e => e.path == objPrefix 1),
-        (save d).man.any (fun e => e.path == objPrefix 7), reloadOK pkgObject7))
-      = some ([[47, 79, 98, 106, 101, 99, 116, 32, 55]], true, false, false) := by
-  decide
+theorem objectsK_map_mem (g : Str → Doc) : ∀ (l : List Str) (Q : Str), Q ∈ l →
+    (stor 0 (g Q), g Q) ∈ objectsK 0 (l.map g) ∧ ∀ q ∈ objectsK 0 (g Q).children, q ∈ objectsK 0 (l.map g) := by
+  intro l
+  induction l with
+  | nil => intro Q h; cases h
+  | cons x xs ih =>
+    intro Q hQ
+    simp only [List.map_cons, objectsK, List.mem_append]
+    rcases List.mem_cons.mp hQ with rfl | hQ
+    · rw [objects_head]
+      exact ⟨Or.inl List.mem_cons_self, fun q hq => Or.inl (List.mem_cons_of_mem _ hq)⟩
+    · exact ⟨Or.inr (ih Q hQ).1, fun q hq => Or.inr ((ih Q hQ).2 q hq)⟩
 
-/-- "Object 1/" (media type A) and "Object 2/" (media type B), the manifest listing "Object 2/" first -/
-def pkgPermuted : Package :=
-  ⟨some sOdt,
-   [(sSlash, sOdt), (sContent, sTextXml), (sStyles, sTextXml),
-    (objPrefix 2, mtB), (objPrefix 2 ++ sContent, sTextXml), (objPrefix 2 ++ sStyles, sTextXml),
-    (objPrefix 1, mtA), (objPrefix 1 ++ sContent, sTextXml), (objPrefix 1 ++ sStyles, sTextXml)],
-   [(sContent, [60]), (sStyles, [60]), (objPrefix 2 ++ sContent, [60]), (objPrefix 2 ++ sStyles, [60]),
-    (objPrefix 1 ++ sContent, [60]), (objPrefix 1 ++ sStyles, [60])], []⟩
+mutual
+/-- the sub-documents of a sub-document are sub-documents -/
+theorem objects_trans (L : Nat) (F : Str) (d : Doc) : ∀ q ∈ objects L F d, ∀ r ∈ objectsK L q.2.children, r ∈ objectsK L d.children := by
+  cases d with
+  | mk id mt hs pics th ex fo kids =>
+    intro q hq r hr
+    simp only [objects, List.mem_cons] at hq
+    rcases hq with rfl | hq
+    · exact hr
+    · exact objectsK_trans L kids q hq r hr
+theorem objectsK_trans (L : Nat) (ds : List Doc) : ∀ q ∈ objectsK L ds, ∀ r ∈ objectsK L q.2.children, r ∈ objectsK L ds := by
+  cases ds with
+  | nil => intro q hq; simp [objectsK] at hq
+  | cons c cs =>
+    intro q hq r hr
+    simp only [objectsK, List.mem_append] at hq ⊢
+    rcases hq with hq | hq
+    · left
+      rw [objects_head]
+      exact List.mem_cons_of_mem _ (objects_trans L (stor L c) c q hq r hr)
+    · exact Or.inr (objectsK_trans L cs q hq r hr)
+end
 
-/-- **finding KF-C16-8** (`sig=permuted-manifest-order`): the folders are numbered 1, 2 but listed as 2, 1:
-    the sub-document loaded from "Object 2/" (id 1, media type B) is re-stored as "Object 1/", so after
-    load + save "Object 2/" is declared with media type A and holds the other sub-document. -/
-theorem finding_permuted_manifest_order :
-    (load pkgPermuted).map (fun d => (d.children.map (fun c => (c.id, c.folder)),
-        (save d).man.any (fun e => e.path == objPrefix 2 && e.mediatype == mtA), reloadOK pkgPermuted))
-      = some ([(1, [47, 79, 98, 106, 101, 99, 116, 32, 50]), (2, [47, 79, 98, 106, 101, 99, 116, 32, 49])], true, false) := by
-  decide
+open OdfModel.Props.C03 in
+theorem stor_built (p : Package) (man : List (Str × Str)) (keys : List Str) (f : Nat) (Q : Str)
+    (hQ : Q.getLast? = some 47) : stor 0 (buildDoc p man keys f Q) = Q := by
+  have hne : Q ≠ [] := by intro he; rw [he] at hQ; simp at hQ
+  have h3 : Q.isEmpty = false := by cases Q with | nil => exact absurd rfl hne | cons a b => rfl
+  simp only [stor, buildDoc_folder, folderOfPath, h3, Bool.false_eq_true, if_false, Nat.zero_add, List.drop_succ_cons,
+    List.drop_zero, sSlash]
+  exact (eq_dropLast_append_of_getLast? Q 47 hQ).symm
 
-theorem not_reloadKeepsRefs : ¬ ReloadKeepsRefs := by
-  intro h
-  have := h pkgObject7
-  have h2 := finding_noncontiguous
-  cases hl : load pkgObject7 with
-  | none => rw [hl] at h2; cases h2
-  | some d =>
-    rw [hl] at h2
-    simp only [Option.map_some, Option.some.injEq, Prod.mk.injEq] at h2
-    rw [this] at h2
-    exact absurd h2.2.2.2 (by decide)
+open OdfModel.Props.C03 in
+/-- every sub-document folder is reached by `buildDoc` from the top, given fuel for its depth -/
+theorem reach (p : Package) (man : List (Str × Str)) (keys : List Str) (F : Nat) :
+    ∀ (n : Nat) (Q : Str), Q.length ≤ n → (∃ P, (P, Q) ∈ allPairs keys) → depth Q ≤ F →
+      (Q, buildDoc p man keys (F - depth Q) Q) ∈ objectsK 0 (buildDoc p man keys F []).children := by
+  intro n
+  induction n with
+  | zero =>
+    intro Q hl ⟨P, hP⟩ _
+    obtain ⟨_, c, hc, e, _⟩ := allPairs_spec keys (P, Q) hP
+    simp only at e
+    have := (isComp_facts c hc).1
+    have : Q ≠ [] := by rw [e]; cases c with | nil => exact absurd rfl this | cons a b => cases P <;> simp
+    cases Q with
+    | nil => exact absurd rfl this
+    | cons a b => simp at hl
+  | succ n ih =>
+    intro Q hl ⟨P, hP⟩ hd
+    obtain ⟨_, c, hc, e, _⟩ := allPairs_spec keys (P, Q) hP
+    simp only at e
+    have hQl : Q.getLast? = some 47 := by rw [e, List.getLast?_append, (isComp_facts c hc).2.1]; rfl
+    have hdQ : depth Q = depth P + 1 := by rw [e]; exact depth_comp P c hc
+    have hkid : Q ∈ kidsOf keys P := (mem_kidsOf keys P Q).mpr hP
+    rcases allPairs_parent keys (P, Q) hP with h0 | ⟨P', hP'⟩
+    · simp only at h0
+      subst h0
+      have hd1 : depth Q = 1 := by rw [hdQ]; rfl
+      cases F with
+      | zero => omega
+      | succ F' =>
+        have := (objectsK_map_mem (buildDoc p man keys F') (kidsOf keys []) Q hkid).1
+        rw [stor_built p man keys F' Q hQl] at this
+        simpa [buildDoc, hd1] using this
+    · simp only at hP'
+      have hPlen : P.length ≤ n := by
+        have : 0 < c.length := by
+          have := (isComp_facts c hc).1
+          cases c with | nil => exact absurd rfl this | cons a b => simp
+        rw [e] at hl; simp at hl; omega
+      have ihP := ih P hPlen ⟨P', hP'⟩ (by omega)
+      -- the node of P has fuel F - depth P = (F - depth Q) + 1
+      have hf : F - depth P = (F - depth Q) + 1 := by omega
+      rw [hf] at ihP
+      have hk := (objectsK_map_mem (buildDoc p man keys (F - depth Q)) (kidsOf keys P) Q hkid).1
+      rw [stor_built p man keys _ Q hQl] at hk
+      have hch : (buildDoc p man keys (F - depth Q + 1) P).children = (kidsOf keys P).map (buildDoc p man keys (F - depth Q)) := rfl
+      exact objectsK_trans 0 _ _ ihP _ (by rw [hch]; exact hk)
 
-/-- **C16 (reload, proved part)**: if the document that `load` produced has its objects' `folder`
-    attributes in positional order ("/Object 1", "/Object 2", … — i.e. the manifest lists the object
-    folders contiguously numbered and in that order: `Pos [] d`), then after save every reference
-    "./Object N" still names the folder of the object loaded from "Object N/", with its media type. -/
-theorem reload_keeps_refs_partial (d : Doc) (hpos : Pos [] d) :
-    ∀ x ∈ reloadRefs d, refResolves (save d) x.2.2 x.1 x.2.1 = true := by
-  have hr : RefsOK ⟨d, [], reloadRefs d⟩ := by
-    cases d with
+theorem length_le_sum_lengths : ∀ (l : List Str) (x : Str), x ∈ l → x.length ≤ (l.map (·.length)).sum := by
+  intro l
+  induction l with
+  | nil => intro x h; cases h
+  | cons a l ih =>
+    intro x h
+    simp only [List.map_cons, List.sum_cons]
+    rcases List.mem_cons.mp h with rfl | h
+    · omega
+    · have := ih x h; omega
+
+open OdfModel.Props.C03 in
+/-- the document `load` built for the folder `Q` of the package -/
+def LoadedAt (p : Package) (d : Doc) (Q : Str) (o : Doc) : Prop :=
+  let man := manifestlist p.manifest
+  let keys := man.map (·.1)
+  (Q, o) ∈ objects 0 [] d ∧ o.folder = folderOfPath Q ∧ o.pictures = picsAt p man keys Q ∧ o.extras = extrasAt p man keys Q
+  ∧ (Q ≠ [] → o.id = keys.idxOf Q + 1 ∧ o.mimetype = ((man.find? (fun e => e.1 == Q)).map (·.2)).getD [])
+
+open OdfModel.Props.C03 in
+/-- every folder that `load` recognises as a sub-document (and the top folder "") has its document in the tree,
+    stored — by `save` — under that very folder -/
+theorem loaded_at (p : Package) (d : Doc) (hl : load p = some d) (Q : Str)
+    (hQ : Q = [] ∨ ∃ P, (P, Q) ∈ allPairs ((manifestlist p.manifest).map (·.1))) :
+    d.folder = [] ∧ ∃ o, LoadedAt p d Q o := by
+  unfold load at hl
+  simp only at hl
+  split at hl
+  · generalize hb : buildDoc p (manifestlist p.manifest) ((manifestlist p.manifest).map (·.1))
+      (loadFuel ((manifestlist p.manifest).map (·.1))) [] = b at hl
+    cases b with
     | mk id mt hs pics th ex fo kids =>
-      simp only [Pos] at hpos
-      intro x hx
-      simp only [reloadRefs, List.mem_map] at hx
-      obtain ⟨c, hc, rfl⟩ := hx
-      -- position of c among the kids
-      have key : ∀ (ds : List Doc) (k : Nat), PosK [] k ds → c ∈ ds →
-          ∃ q ∈ objectsK [] k ds, ∃ G, q.2.id = c.id ∧ q.2.mimetype = c.mimetype ∧ c.folder = sSlash ++ G ∧ q.1 = G ++ sSlash := by
-        intro ds
-        induction ds with
-        | nil => intro k _ h; cases h
-        | cons e es ih =>
-          intro k hp hm
-          simp only [PosK] at hp
-          rcases List.mem_cons.mp hm with hm | hm
-          · subst hm
-            refine ⟨(objPrefix k, c), ?_, sObjectSp ++ dec k, rfl, rfl, ?_, ?_⟩
-            · simp only [objectsK, List.mem_append]; left
-              rw [objects_head]; simp
-            · cases c with
-              | mk cid cmt chs cpics cth cex cfo ckids =>
-                simp only [Pos] at hp
-                have h1 := hp.1.1
-                simp only [List.nil_append, objPrefix, sSlash] at h1 ⊢
-                have : cfo ++ [47] = (47 :: (sObjectSp ++ dec k)) ++ [47] := by simpa using h1
-                exact List.append_cancel_right this
-            · simp [objPrefix]
-          · obtain ⟨q, hq, G, e⟩ := ih (k+1) hp.2 hm
-            exact ⟨q, by simp only [objectsK, List.mem_append]; exact Or.inr hq, G, e⟩
-      obtain ⟨q, hq, G, e1, e2, e3, e4⟩ := key kids 1 hpos.2 hc
-      exact ⟨q, hq, G, e1, e2, by simp [e3, RefsOK.sDotSlashStr, sSlash], e4⟩
-  exact resolves_of_refsOK ⟨d, [], reloadRefs d⟩ hr
+      simp only [Option.some.injEq] at hl
+      subst hl
+      have hfo : fo = [] := by
+        have := congrArg Doc.folder hb
+        rw [buildDoc_folder] at this
+        simpa [folderOfPath] using this.symm
+      have hkids : kids = (buildDoc p (manifestlist p.manifest) ((manifestlist p.manifest).map (·.1))
+          (loadFuel ((manifestlist p.manifest).map (·.1))) []).children := by rw [hb]
+      refine ⟨hfo, ?_⟩
+      rcases hQ with rfl | ⟨P, hP⟩
+      · refine ⟨⟨0, detectMimetype p, hs, pics, thumbOf p (manifestlist p.manifest), ex, fo, kids⟩, ?_, by simpa [folderOfPath] using hfo, ?_, ?_, fun h => absurd rfl h⟩
+        · rw [objects_head]; exact List.mem_cons_self
+        · have := congrArg Doc.pictures hb
+          simp only [loadFuel] at this
+          exact this.symm
+        · have := congrArg Doc.extras hb
+          simp only [loadFuel] at this
+          exact this.symm
+      · obtain ⟨_, c, hc, e, hin⟩ := allPairs_spec _ (P, Q) hP
+        simp only at e hin
+        have hdep : depth Q ≤ loadFuel ((manifestlist p.manifest).map (·.1)) := by
+          have h1 : depth Q ≤ Q.length := List.count_le_length
+          have h2 := length_le_sum_lengths _ Q hin
+          simp only [loadFuel]; omega
+        have := reach p (manifestlist p.manifest) _ (loadFuel ((manifestlist p.manifest).map (·.1))) Q.length Q
+          (Nat.le_refl _) ⟨P, hP⟩ hdep
+        rw [← hkids] at this
+        refine ⟨buildDoc p (manifestlist p.manifest) ((manifestlist p.manifest).map (·.1))
+          (loadFuel ((manifestlist p.manifest).map (·.1)) - depth Q) Q, ?_, buildDoc_folder _ _ _ _ _, ?_, ?_, fun _ => ⟨?_, ?_⟩⟩
+        · rw [objects_head]; exact List.mem_cons_of_mem _ this
+        all_goals (cases (loadFuel ((manifestlist p.manifest).map (·.1)) - depth Q) <;> rfl)
+  · cases hl
+
+
+open OdfModel.Props.C03 in
+/-- **C16 (`reload_keeps_refs`, full strength)**: for every package that loads, and every folder `Q` that
+    `load` recognises as a sub-document — any chain of listed "Object <digits>/" folders: any numbering, any
+    number of digits, any nesting depth, wherever its entries stand in the manifest — the reference
+    "./Object …" (= "." + the folder attribute `load` gives it) names, after save, the folder that holds
+    content.xml and styles.xml of the document loaded from `Q`, declared with the media type the manifest gave `Q`. -/
+theorem reload_keeps_refs (p : Package) (d : Doc) (hl : load p = some d) :
+    ∀ x ∈ allPairs ((manifestlist p.manifest).map (·.1)),
+      refResolves (save d) (46 :: folderOfPath x.2) (((manifestlist p.manifest).map (·.1)).idxOf x.2 + 1)
+        ((((manifestlist p.manifest).find? (fun e => e.1 == x.2)).map (·.2)).getD []) = true := by
+  intro x hx
+  obtain ⟨_, c, hc, e, _⟩ := allPairs_spec _ x hx
+  have hQl : x.2.getLast? = some 47 := by rw [e, List.getLast?_append, (isComp_facts c hc).2.1]; rfl
+  have hne : x.2 ≠ [] := by intro he; rw [he] at hQl; simp at hQl
+  obtain ⟨hfo, o, hobj, hof, _, _, hid⟩ := loaded_at p d hl x.2 (Or.inr ⟨x.1, hx⟩)
+  obtain ⟨hoid, homt⟩ := hid hne
+  have hL : d.folder.length = 0 := by rw [hfo]; rfl
+  have hobj' : (x.2, o) ∈ objects d.folder.length [] d := by rw [hL]; exact hobj
+  have hk : (x.2, o) ∈ objectsK d.folder.length d.children := by
+    rw [objects_head] at hobj'
+    rcases List.mem_cons.mp hobj' with h | h
+    · exact absurd (congrArg Prod.fst h) hne
+    · exact h
+  have hparts := C03.parts_present d (x.2, o) hobj'
+  have hmt := (C03.root_and_object_mediatypes d).2 (x.2, o) hk
+  have hz1 := hparts.1 ⟨x.2 ++ sStyles, .deflated, [], .part .styles o.id⟩ (by simp [C03.ownXmlZ])
+  have hz2 := hparts.1 ⟨x.2 ++ sContent, .deflated, [], .part .content o.id⟩ (by simp [C03.ownXmlZ])
+  have h3 : x.2.isEmpty = false := by cases hx2 : x.2 with | nil => exact absurd hx2 hne | cons a b => rfl
+  have hF : List.drop 2 (46 :: folderOfPath x.2) ++ sSlash = x.2 := by
+    simp only [folderOfPath, h3, Bool.false_eq_true, if_false, List.drop_succ_cons, List.drop_zero, sSlash]
+    exact (eq_dropLast_append_of_getLast? x.2 47 hQl).symm
+  have hT : List.take 2 (46 :: folderOfPath x.2) = [46, 47] := by
+    simp [folderOfPath, h3]
+  simp only [refResolves, hF, hT, Bool.and_eq_true, List.any_eq_true]
+  refine ⟨⟨⟨by simp, ⟨_, hz2, by simp [hoid]⟩⟩, ⟨_, hz1, by simp [hoid]⟩⟩, ⟨_, hmt, by simp [homt]⟩⟩
+
+open OdfModel.Props.C03 in
+theorem chainEnd_in_pairs (keys : List Str) : ∀ (f : Nat) (op rest : Str),
+    chainEnd keys f op rest = op ∨ ∃ x ∈ chainPairs keys f op rest, x.2 = chainEnd keys f op rest := by
+  intro f
+  induction f with
+  | zero => intro op rest; exact Or.inl rfl
+  | succ f ih =>
+    intro op rest
+    simp only [chainEnd, chainPairs]
+    cases ho : objComp rest with
+    | none => exact Or.inl rfl
+    | some c =>
+      simp only
+      by_cases hk : keys.contains (op ++ c) = true
+      · simp only [hk, if_true]
+        right
+        rcases ih (op ++ c) (rest.drop c.length) with h | ⟨x, hx, hxe⟩
+        · exact ⟨(op, op ++ c), List.mem_cons_self, h.symm⟩
+        · exact ⟨x, List.mem_cons_of_mem _ hx, hxe⟩
+      · simp only [hk]; exact Or.inl rfl
+
+open OdfModel.Props.C03 in
+/-- the folder a manifest key is dispatched to is the top folder or a sub-document folder -/
+theorem chainOf_known (keys : List Str) (k : Str) (hk : k ∈ keys) :
+    chainOf keys k = [] ∨ ∃ P', (P', chainOf keys k) ∈ allPairs keys := by
+  rcases chainEnd_in_pairs keys k.length [] k with h | ⟨x, hx, hxe⟩
+  · exact Or.inl h
+  · right
+    refine ⟨x.1, ?_⟩
+    simp only [allPairs, foldl_addPair_mem, List.not_mem_nil, false_or, List.mem_flatMap]
+    refine ⟨k, hk, ?_⟩
+    have : (x.1, chainOf keys k) = x := by unfold chainOf; rw [← hxe]
+    rw [this]; exact hx
+
+theorem load_reads (p : Package) (d : Doc) (hl : load p = some d) :
+    ∀ e ∈ manifestlist p.manifest, needsRead ((manifestlist p.manifest).map (·.1)) e = true →
+      (zread p.members e.1).isSome = true := by
+  unfold load at hl
+  simp only at hl
+  split at hl
+  · rename_i hall
+    intro e he hr
+    simp only [List.all_eq_true, Bool.or_eq_true, Bool.not_eq_true'] at hall
+    rcases hall e he with h | h
+    · rw [hr] at h; cases h
+    · exact h
+  · cases hl
+
+open OdfModel.Props.C03 in
+/-- **C16 (other files travel — `load_carries_files`, full strength)**: for every package that loads, every
+    manifest entry that `load` does not interpret (not a picture, the thumbnail, a parsed part, or one of the
+    entries `save` regenerates) — at the top level or below a sub-document folder of any depth, e.g.
+    "Object 1/meta.xml", "Object 12345/Object 1/Configurations2/menu.xml" — is, after save, listed under the
+    same path with the same media type and, unless it is a directory name, present as a member with exactly the
+    bytes the source held; META-INF/documentsignatures.xml excepted. -/
+theorem load_carries_files (p : Package) (d : Doc) (hl : load p = some d) (e : Str × Str)
+    (he : e ∈ manifestlist p.manifest)
+    (hk : isKept (chainOf ((manifestlist p.manifest).map (·.1)) e.1) e = true)
+    (hs : e.1.drop (chainOf ((manifestlist p.manifest).map (·.1)) e.1).length ≠ sDocSig) :
+    (∃ fl, (⟨e.1, e.2, fl⟩ : ME) ∈ (save d).man) ∧
+    ((e.1.drop (chainOf ((manifestlist p.manifest).map (·.1)) e.1).length).getLast? ≠ some 47 →
+      ∃ b, zread p.members e.1 = some b ∧ (⟨e.1, .deflated, [], .bytes b⟩ : ZE) ∈ (save d).zip) := by
+  have hkey : e.1 ∈ (manifestlist p.manifest).map (·.1) := List.mem_map_of_mem he
+  have hent : e ∈ entriesAt (manifestlist p.manifest) ((manifestlist p.manifest).map (·.1))
+      (chainOf ((manifestlist p.manifest).map (·.1)) e.1) := (mem_entriesAt _ _ _ e).mpr ⟨he, rfl⟩
+  have hek := entry_key _ _ _ e hent
+  generalize hP : chainOf ((manifestlist p.manifest).map (·.1)) e.1 = P at hk hs hent hek
+  have hPk : P = [] ∨ ∃ P', (P', P) ∈ allPairs ((manifestlist p.manifest).map (·.1)) := by
+    rw [← hP]; exact chainOf_known _ e.1 hkey
+  obtain ⟨hfo, o, hobj, _, _, hex, _⟩ := loaded_at p d hl P hPk
+  have hL : d.folder.length = 0 := by rw [hfo]; rfl
+  have hx : toExtra p P e ∈ o.extras := by
+    rw [hex]; exact (mem_extrasAt p _ _ P _).mpr ⟨e, hent, hk, rfl⟩
+  have hw := C03.extras_present d (P, o) (by rw [hL]; exact hobj) (toExtra p P e) hx (by simpa [toExtra] using hs)
+  obtain ⟨⟨fl, h1⟩, h2⟩ := hw
+  have hpath : P ++ (toExtra p P e).filename = e.1 := by simp only [toExtra]; exact hek.symm
+  simp only [hpath] at h1 h2
+  refine ⟨⟨fl, by simpa [toExtra] using h1⟩, ?_⟩
+  intro hne
+  have hr : needsRead ((manifestlist p.manifest).map (·.1)) e = true := by
+    simp only [needsRead, hP, hk, Bool.true_and, Bool.or_eq_true, bne_iff_ne, ne_eq]
+    right
+    exact hne
+  have hsome := load_reads p d hl e he hr
+  cases hz : zread p.members e.1 with
+  | none => rw [hz] at hsome; cases hsome
+  | some b =>
+    refine ⟨b, rfl, h2 b ?_⟩
+    have : ((e.1.drop P.length).getLast? == some 47) = false := by simpa using hne
+    simp [toExtra, this, hz]
+
+theorem foldl_register_distinct : ∀ (l acc : List Pic), ((acc ++ l).map (·.href)).Nodup →
+    l.foldl register acc = acc ++ l := by
+  intro l
+  induction l with
+  | nil => intro acc _; simp
+  | cons x xs ih =>
+    intro acc h
+    simp only [List.foldl_cons]
+    have hx : acc.any (fun q => q.href == x.href) = false := by
+      cases ha : acc.any (fun q => q.href == x.href) with
+      | false => rfl
+      | true =>
+        exfalso
+        simp only [List.any_eq_true, beq_iff_eq] at ha
+        obtain ⟨q, hq, hqe⟩ := ha
+        simp only [List.map_append, List.map_cons, List.nodup_append] at h
+        exact h.2.2 q.href (List.mem_map_of_mem hq) x.href List.mem_cons_self hqe
+    have hr : register acc x = acc ++ [x] := by simp [register, hx]
+    rw [hr, ih (acc ++ [x]) (by simpa [List.append_assoc] using h)]
+    simp
+
+open OdfModel.Props.C03 in
+/-- **C16 (pictures travel — `load_carries_pictures`, full strength)**: every "Pictures/…" entry of the package, at
+    the top level or below a sub-document folder of any depth, is after load + save a member under the same
+    path, stored, with exactly the bytes the source held, listed with the same media type. -/
+theorem load_carries_pictures (p : Package) (d : Doc) (hl : load p = some d) (e : Str × Str)
+    (he : e ∈ manifestlist p.manifest)
+    (hp : isPicturePath (e.1.drop (chainOf ((manifestlist p.manifest).map (·.1)) e.1).length) = true) :
+    ∃ b, zread p.members e.1 = some b ∧ (⟨e.1, .stored, [], .bytes b⟩ : ZE) ∈ (save d).zip
+      ∧ (⟨e.1, e.2, false⟩ : ME) ∈ (save d).man := by
+  have hkey : e.1 ∈ (manifestlist p.manifest).map (·.1) := List.mem_map_of_mem he
+  have hent : e ∈ entriesAt (manifestlist p.manifest) ((manifestlist p.manifest).map (·.1))
+      (chainOf ((manifestlist p.manifest).map (·.1)) e.1) := (mem_entriesAt _ _ _ e).mpr ⟨he, rfl⟩
+  have hek := entry_key _ _ _ e hent
+  have hr : needsRead ((manifestlist p.manifest).map (·.1)) e = true := by simp [needsRead, hp]
+  have hsome := load_reads p d hl e he hr
+  generalize hP : chainOf ((manifestlist p.manifest).map (·.1)) e.1 = P at hp hent hek
+  have hPk : P = [] ∨ ∃ P', (P', P) ∈ allPairs ((manifestlist p.manifest).map (·.1)) := by
+    rw [← hP]; exact chainOf_known _ e.1 hkey
+  obtain ⟨hfo, o, hobj, _, hpics, _, _⟩ := loaded_at p d hl P hPk
+  have hL : d.folder.length = 0 := by rw [hfo]; rfl
+  cases hz : zread p.members e.1 with
+  | none => rw [hz] at hsome; cases hsome
+  | some b =>
+    -- the registrations of this document have pairwise distinct names, so each is kept as it is
+    have hdist : ((((entriesAt (manifestlist p.manifest) ((manifestlist p.manifest).map (·.1)) P).filter
+        (fun e => isPicturePath (e.1.drop P.length))).map
+        (fun e => (⟨e.1.drop P.length, .image ((zread p.members e.1).getD []), e.2⟩ : Pic))).map (·.href)).Nodup := by
+      rw [List.map_map]
+      apply nodup_map_of_nodup_map _ (fun e : Str × Str => e.1)
+      · have h1 : ((entriesAt (manifestlist p.manifest) ((manifestlist p.manifest).map (·.1)) P).filter
+            (fun e => isPicturePath (e.1.drop P.length))).Sublist (manifestlist p.manifest) :=
+          List.Sublist.trans List.filter_sublist (by unfold entriesAt; exact List.filter_sublist)
+        exact List.Nodup.sublist (List.Sublist.map _ h1) (manifestlist_nodup _)
+      · intro a ha b hb hab
+        have ka := entry_key _ _ P a (List.mem_filter.mp ha).1
+        have kb := entry_key _ _ P b (List.mem_filter.mp hb).1
+        simp only [Function.comp] at hab
+        rw [ka, kb, hab]
+    have hpic : (⟨e.1.drop P.length, .image b, e.2⟩ : Pic) ∈ o.pictures := by
+      rw [hpics]
+      unfold picsAt
+      rw [foldl_register_distinct _ [] (by simpa using hdist)]
+      simp only [List.nil_append, List.mem_map, List.mem_filter]
+      exact ⟨e, ⟨hent, hp⟩, by simp [hz]⟩
+    have := C03.pictures_present d (P, o) (by rw [hL]; exact hobj) _ hpic
+    simp only [picContent] at this
+    rw [← hek] at this
+    exact ⟨b, rfl, this.1, this.2⟩
+
+/-- the three travel theorems applied: a package with "Object 7/" listed after one of its files, holding a picture,
+    a file, a meta.xml of its own and an object of its own comes back with every one of these members in place -/
+theorem reload_sample :
+    (load C03.samplePackage).map (fun d =>
+      hasMember (save d) (objPrefix 7 ++ sContent) && hasMember (save d) (objPrefix 7 ++ sPictures ++ [98])
+       && hasMember (save d) (objPrefix 7 ++ [120]) && hasMember (save d) (objPrefix 7 ++ sMeta)
+       && hasMember (save d) (objPrefix 7 ++ objPrefix 1 ++ sContent) && hasMember (save d) (objPrefix 5 ++ [121])
+       && refResolves (save d) ([46] ++ (sSlash ++ objPrefix 7 ++ objPrefix 1).dropLast) 12 sOdt)
+      = some true := by
+  decide
+
 
 end OdfModel.Props.C16
